@@ -67,10 +67,11 @@ type fstate struct {
 	facts  []lin.Fact
 	desc   []string
 	bufLen *lin.Form
+	wrote  bool
 }
 
 func (s *fstate) clone() *fstate {
-	o := &fstate{env: map[ssa.Value]fval{}, mem: map[string]fval{}, facts: append([]lin.Fact{}, s.facts...), desc: append([]string{}, s.desc...)}
+	o := &fstate{env: map[ssa.Value]fval{}, mem: map[string]fval{}, facts: append([]lin.Fact{}, s.facts...), desc: append([]string{}, s.desc...), wrote: s.wrote}
 	for k, v := range s.env {
 		o.env[k] = v
 	}
@@ -89,6 +90,7 @@ type fillRun struct {
 	ip       *pathint.Interp
 	wd       *ssa.Function
 	target   *ssa.Call
+	targets  map[*ssa.Call]bool
 	header   *ssa.BasicBlock
 	makers   map[*ssa.Function]bool
 	fresh    int
@@ -128,11 +130,13 @@ func c04ExactFill(c *Ctx) {
 	for _, b := range wd.Blocks {
 		for _, in := range b.Instrs {
 			if call, ok := in.(*ssa.Call); ok && call.Call.StaticCallee() == wp {
-				if fr.target != nil {
-					r.Unknown(rule, "WriteData/one-writePacket-call", c.P.Pos(call.Pos()), "more than one writePacket call in WriteData")
-					return
+				if fr.targets == nil {
+					fr.targets = map[*ssa.Call]bool{}
 				}
-				fr.target = call
+				fr.targets[call] = true
+				if fr.target == nil || call.Block().Dominates(fr.target.Block()) {
+					fr.target = call
+				}
 			}
 		}
 	}
@@ -613,9 +617,11 @@ func (fr *fillRun) walk(b *ssa.BasicBlock, pred *ssa.BasicBlock, st *fstate, dep
 			}
 			fr.store(st, k, sv)
 		case *ssa.Call:
-			if in == fr.target {
-				fr.judge(st)
-				return
+			if fr.targets[in] {
+				fr.judge(st, in)
+				st.wrote = true
+				st.env[in] = fval{tuple: []fval{{isInt: true, f: fr.sym("written", 0)}, {isPtr: true, pk: fpNil}}}
+				continue
 			}
 			st.env[in] = fr.call(st, in)
 		case ssa.Value:
@@ -814,6 +820,9 @@ func (fr *fillRun) call(st *fstate, in *ssa.Call) fval {
 // decided here is that it happens ONLY then: the path's facts must imply bytesAvailable < 6 + calcPESOptionalHeaderLength,
 // bytesAvailable being what the packet had left for the PES header.
 func (fr *fillRun) judgeDrop(st *fstate) {
+	if st.wrote {
+		return // the packet of this iteration was written
+	}
 	fr.ndrops++
 	path := strings.Join(st.desc, ",")
 	pk, ok := fr.addrKey(st, fr.target.Call.Args[1])
@@ -846,10 +855,10 @@ func (fr *fillRun) judgeDrop(st *fstate) {
 	fr.dropBad = append(fr.dropBad, fmt.Sprintf("[%s] the first packet of the unit is given up although %s bytes are free and the PES header needs 6 + H: not known to be too small (cannot show %s >= 0)", path, avail.String(), goal.String()))
 }
 
-func (fr *fillRun) judge(st *fstate) {
+func (fr *fillRun) judge(st *fstate, call *ssa.Call) {
 	fr.npaths++
 	path := strings.Join(st.desc, ",")
-	args := fr.target.Call.Args
+	args := call.Call.Args
 	pk, ok := fr.addrKey(st, args[1])
 	if !ok {
 		fr.unk = append(fr.unk, "the packet argument of writePacket is not a local packet")
